@@ -344,6 +344,7 @@ Fixpoint ps_run (step : N -> N -> N) (st : pstore) (m : medium) (ops : list (N *
         | 3 => let '(acc, d, m') := fetch st m in (ps_obs st m m' acc (match acc with PSuccess => VH d | _ => VS "-" end), m')
         | 4 => let '(acc, d, m') := fetch_part st m a b in (ps_obs st m m' acc (match acc with PSuccess => VH d | _ => VS "-" end), m')
         | 5 => let '(acc, m') := reset st m a in (ps_obs st m m' acc (VS "-"), m')
+        | 7 => let '(acc, m') := store step st m (map (fun j => (a / 256 ^ N.of_nat j) mod 256) (seq 0 (N.to_nat (p_dsize st)))) in (ps_obs st m m' acc (VS "-"), m')
         | _ => let m' := {| m_base := m_base m; m_img := upd (m_img m) (N.to_nat a) (N.lxor (nth (N.to_nat a) (m_img m) 0) b);
                            m_log := m_log m; m_rd := m_rd m; m_wr := m_wr m |} in
                ([VS "corrupt"; VS "-"; VH (m_img m'); VS "-"; VS "-"], m')
